@@ -218,6 +218,11 @@ def props_of(conj, sig, group):
     kind = sig.get('kind', '-')
     op = sig.get('op', '-')
     ps = set()
+    if kind == 'conc':
+        ps.add(sig.get('prop', 'C16')[:3])
+        if conj == 'nopanic':
+            ps.add('C13')
+        return ps
     if kind == 'x2':
         ps.add('C11')
         if conj == 'nopanic':
